@@ -21,3 +21,12 @@ package flavors
 //@ func flavors.(*Flavor).inheritFlavor
 //@   property C11
 //@   on-store Combinations one-per-origin: forall j :: (0 <= j && j < len(was) && was[j].From != nil) ==> Name(was[j].From) != Name(ic.From)
+
+// C19 / C11: an instance variable is left out of the flavor's load form only when
+// the flavor would inherit that very default: the FIRST component in precedence
+// order that declares the variable decides, later ones are shadowed by it.
+//@ func flavors.(*Flavor).inheritedVar
+//@   property C19 C11
+//@   ensures first-declaring-component-decides: forall j :: (0 <= j && j < len(obj.inherit) && has(obj.inherit[j].defaultVars, k) && (forall i :: (0 <= i && i < j) ==> !has(obj.inherit[i].defaultVars, k))) ==> (result0 == (v == obj.inherit[j].defaultVars[k]))
+//@   ensures not-declared-not-inherited: (forall j :: (0 <= j && j < len(obj.inherit)) ==> !has(obj.inherit[j].defaultVars, k)) ==> !result0
+//@   loop rangeindex: invariant none-so-far: forall i :: (0 <= i && i <= rangeindex) ==> !has(obj.inherit[i].defaultVars, k)
